@@ -196,8 +196,7 @@ func buildUniverse(r *simrt.Run) ([]Fact, int) {
 			seen[f.Key()] = true
 			hk := predID(f) + "#" + ArgHashKey(ToAtom(f))
 			if hseen[hk] {
-				dropped++
-				continue
+				dropped++ // an atom whose hash code equals that of another atom: kept, stores must tell them apart
 			}
 			hseen[hk] = true
 			uni = append(uni, f)
@@ -211,7 +210,7 @@ func runC06(r *simrt.Run, tier Tier) Outcome {
 	r.OrderSeed = uint64(r.Choose(1<<16, "c06.orderseed"))
 	uni, dropped := buildUniverse(r)
 	if dropped > 0 {
-		r.Probe("universe-atom-dropped-for-hash-collision")
+		r.Probe("universe-has-atoms-with-equal-hash")
 	}
 	if len(uni) < 2 {
 		return Outcome{Discard: "tiny-universe"}
